@@ -224,14 +224,18 @@ def _run(body, prefix, stats, bound):
     return ctx
 
 
-def explore(body, prefix=(), bound=None, stats=None, expand_only=False, audit_every=0):
+def explore(body, prefix=(), bound=None, stats=None, expand_only=False, audit_every=0, budget_s=None):
     """Exhaustive DFS by re-execution below `prefix`.  Returns Stats (and child prefixes if
     expand_only)."""
     stats = stats if stats is not None else Stats()
     stack = [list(prefix)]
     children_out = []
     first = True
+    t_end = (time.time() + budget_s) if budget_s else None
     while stack:
+        if t_end is not None and not first and time.time() > t_end:
+            # budget used up: hand the unexplored prefixes back (each is a disjoint subtree)
+            return stats, stack
         p = stack.pop()
         ctx = _run(body, p, stats, bound)
         new_nodes = len(ctx.choices) - len(p)
@@ -282,6 +286,8 @@ def explore(body, prefix=(), bound=None, stats=None, expand_only=False, audit_ev
         stack.extend(reversed(kids))
     if expand_only:
         return stats, children_out
+    if budget_s:
+        return stats, []
     return stats
 
 
@@ -327,6 +333,7 @@ def take_lines():
 # ---------------------------------------------------------------------------------------------
 # parallel driver
 _BODIES = {}
+TASK_BUDGET_S = 0.25
 
 
 def _worker_init():
@@ -339,9 +346,9 @@ def _worker_init():
 def _worker_task(args):
     name, prefix, bound, audit = args
     try:
-        st = explore(_BODIES[name], prefix, bound, audit_every=audit)
+        st, rest = explore(_BODIES[name], prefix, bound, audit_every=audit, budget_s=TASK_BUDGET_S)
         st.lines = take_lines()
-        return ("ok", st)
+        return ("ok", (st, rest))
     except BaseException as e:  # noqa
         return ("err", "%s\n%s" % (repr(e), traceback.format_exc()))
 
@@ -363,31 +370,30 @@ def explore_parallel(name, body, bound=None, min_shards=128, audit_every=0, work
         st = explore(body, (), bound, stats, audit_every=audit_every)
         st.lines |= take_lines()
         return st
-    pending = [[]]
-    expanded_leaf = 0
-    first = True
-    # breadth-first expansion in the parent
-    while pending and len(pending) < min_shards:
-        p = pending.pop(0)
-        st, kids = explore(body, p, bound, expand_only=True)
-        if not first:
-            pass
-        first = False
-        stats.merge(st)
-        pending.extend(kids)
-        expanded_leaf += 1
-        if expanded_leaf > 4 * min_shards:
-            break
-    if pending:
-        ctx = mp.get_context("fork")
-        with ctx.Pool(workers, initializer=_worker_init) as pool:
-            tasks = [(name, p, bound, audit_every) for p in pending]
-            chunk = max(1, len(tasks) // (workers * 8))
-            for status, res in pool.imap_unordered(_worker_task, tasks, chunksize=chunk):
-                if status == "err":
-                    pool.terminate()
-                    raise HarnessError("worker failed: " + res)
-                stats.merge(res)
+    ctx = mp.get_context("fork")
+    with ctx.Pool(workers, initializer=_worker_init) as pool:
+        # dynamic load balancing: a task explores its subtree depth-first for at most TASK_BUDGET_S
+        # and hands the unexplored prefixes (disjoint subtrees) back; they are re-submitted.
+        import queue as _q
+        done = _q.Queue()
+        outstanding = 0
+
+        def submit(prefix):
+            nonlocal outstanding
+            outstanding += 1
+            pool.apply_async(_worker_task, ((name, prefix, bound, audit_every),), callback=done.put,
+                             error_callback=lambda e: done.put(("err", repr(e))))
+        submit([])
+        while outstanding:
+            status, res = done.get()
+            outstanding -= 1
+            if status == "err":
+                pool.terminate()
+                raise HarnessError("worker failed: " + res)
+            st, rest = res
+            stats.merge(st)
+            for pfx in rest:
+                submit(pfx)
     stats.lines |= take_lines()
     return stats
 
